@@ -68,7 +68,22 @@ def make_variants(rng, spec, n, feat=None, allow_file_variants=True, prefer_file
                 if rr.get('context'):
                     rr['context_reuse_sources'] = True
                     rr.pop('context_reuse', None)
-        elif r < 0.35:
+        elif r < 0.3 and not prefer_file_variants and (feat or {}).get('rewrite_in_place', True):
+            # a config file REWRITTEN IN PLACE (same path, other value) between two chain constructions
+            fname = rng.choice(list(spec['files']))
+            f = copy.deepcopy((root.get('file_state') or {}).get(fname) or spec['files'][fname])
+            changed = False
+            for part, pd in f['parts'].items():
+                keys = [k for k, v in pd.get('values', {}).items() if not (isinstance(v, dict) and 'class' in v)]
+                if keys:
+                    longs = [k_ for k_ in keys if isinstance(pd['values'][k_], (list, str)) and len(pd['values'][k_]) > 100]
+                    k = rng.choice(longs) if longs and rng.random() < 0.8 else rng.choice(keys)
+                    pd['values'][k] = S.same_type_value(rng, pd['values'][k])
+                    changed = True
+            if not changed:
+                continue
+            root['file_state'] = dict(root.get('file_state') or {}, **{fname: f})
+        elif r < 0.4:
             root.pop('context', None)
             S.add_context(rng, spec, root, {**S.DEFAULT_FEAT, **(feat or {})})
         elif r < 0.5 and spec.get('free_ns_words'):
@@ -86,7 +101,8 @@ def make_variants(rng, spec, n, feat=None, allow_file_variants=True, prefer_file
             for part, pd in f['parts'].items():
                 keys = [k for k, v in pd.get('values', {}).items() if not (isinstance(v, dict) and 'class' in v)]
                 if keys:
-                    k = rng.choice(keys)
+                    longs = [k_ for k_ in keys if isinstance(pd['values'][k_], (list, str)) and len(pd['values'][k_]) > 100]
+                    k = rng.choice(longs) if longs and rng.random() < 0.8 else rng.choice(keys)
                     pd['values'][k] = S.same_type_value(rng, pd['values'][k])
                     changed = True
             if not changed:
@@ -114,6 +130,11 @@ def make_variants(rng, spec, n, feat=None, allow_file_variants=True, prefer_file
         ref = Ref(spec, root)
         if ref.error is None and ref.tasks:
             roots.append(root)
+    # files rewritten in place: every root states the content of every such file at the moment its chain is built
+    all_f = {f for r_ in roots for f in (r_.get('file_state') or {})}
+    if all_f:
+        for r_ in roots:
+            r_['file_state'] = {f: (r_.get('file_state') or {}).get(f) or spec['files'][f] for f in all_f}
     return roots
 
 
